@@ -139,3 +139,48 @@ class Interp6(Interp5):
             return SAdt("DepRec", self.w.funcs["depOfText"](st.v.text.t), fresh=True, pyclass="HTMLDependency")
         h = getattr(self, "construct_hook6", None)
         return h(cls, pos, kw, node) if h else None
+
+    def get_attr(self, obj, attr, node):
+        if isinstance(obj, SBuiltin) and obj.bound is None and obj.name == "copy" and attr in ("copy", "deepcopy"):
+            return SBuiltin(attr)           # `import copy; copy.copy(x)`
+        return super().get_attr(obj, attr, node)
+
+    def str_of(self, v, node=None):
+        if isinstance(v, SBool):
+            return SStr(z3.If(v.t, z3.StringVal("True"), z3.StringVal("False")) if not (z3.is_true(v.t) or z3.is_false(v.t)) else z3.StringVal("True" if z3.is_true(v.t) else "False"))
+        return super().str_of(v, node)
+
+    # ---- hashlib.sha1(s.encode("utf-8")).hexdigest() (C18) ----------------------------------------------------------
+    def str_method_hook(self, s, meth, pos, kw, node):
+        if meth == "encode" and len(pos) <= 1 and not kw:
+            enc = z3.simplify(pos[0].t).as_string() if pos and isinstance(pos[0], SStr) and z3.is_string_value(z3.simplify(pos[0].t)) else "utf-8"
+            if enc.lower().replace("_", "-") in ("utf-8", "utf8"):
+                r = SOpaque("bytes:utf-8")
+                r.text = s
+                return r
+            raise Unsupported(f"str.encode({enc!r})")
+        return super().str_method_hook(s, meth, pos, kw, node)
+
+    def builtin_hook6(self, name, pos, kw, node):
+        if name == "hashlib.sha1" and len(pos) == 1 and isinstance(pos[0], SOpaque) and pos[0].what == "bytes:utf-8" and not kw:
+            r = SOpaque("sha1")
+            r.text = pos[0].text
+            return r
+        if name in ("hash", "id") or name.startswith(("random.", "time.", "uuid.")):
+            raise Unsupported(f"{name}(): process- or history-dependent value (outside the deterministic subset)")
+        h = getattr(self, "builtin_hook7", None)
+        return h(name, pos, kw, node) if h else None
+
+    def method_hook7(self, obj, meth, pos, kw, node):
+        if isinstance(obj, SOpaque) and obj.what == "sha1" and meth == "hexdigest" and not pos and not kw:
+            return SStr(self.w.funcs["sha1hex"](obj.text.t))
+        h = getattr(self, "method_hook8", None)
+        return h(obj, meth, pos, kw, node) if h else None
+
+    def construct_hook6(self, cls, pos, kw, node):
+        if cls == "HTMLDependency" and not pos and set(kw) <= {"name", "version", "head", "source", "script", "stylesheet", "meta", "all_files"} and "name" in kw and "version" in kw and "**" not in kw:
+            # record view of a dependency built from keyword arguments (validation of script/stylesheet/meta dicts is C10's bounded part)
+            if set(kw) <= {"name", "version", "head"}:
+                return PyRec("HTMLDependency", dict(kw), fresh=True)
+        h = getattr(self, "construct_hook7", None)
+        return h(cls, pos, kw, node) if h else None
